@@ -152,7 +152,7 @@ Spec == Init /\ [][Next]_vars
 -----------------------------------------------------------------------------
 \* the abstract file the Reference needs for type resolution: the current file's imports + the project
 RefFile == [pkg |-> Pkg, imports |-> imports, unit |-> [name |-> curClz], pathKind |-> "main"]
-RefRec == [files |-> <<RefFile, [pkg |-> Pkg, imports |-> <<>>, unit |-> [name |-> "Bar"], pathKind |-> "main"]>>]
+RefRec == [files |-> <<RefFile, [pkg |-> Pkg, imports |-> <<>>, unit |-> [name |-> "Bar"], pathKind |-> "main"]>>, outsider |-> 0]
 
 \* every recorded call carries the receiver type Java scoping gives it (same operator that judges the real code)
 C02_ReceiverResolved ==
